@@ -4,8 +4,8 @@ use std::io::{BufWriter, Read, Write};
 use std::path::{Path, PathBuf};
 use std::{env, fs, io};
 use xml_dom::{
-    AsExpandedName, AsNode, Attr, AttrMut, CharacterData, Document, DocumentMut, ElementMut,
-    NamedNodeMapMut, Node, PrettyPrint, ProcessingInstruction,
+    AsExpandedName, AsNode, CharacterData, Document, DocumentMut, ElementMut, NamedNodeMapMut,
+    Node, PrettyPrint, ProcessingInstruction,
 };
 
 struct Argument {
@@ -285,8 +285,12 @@ where
 {
     match child {
         xml_dom::XmlNode::Attribute(v) => {
-            let mut n = document_of(&node).create_attribute(qualified_name(&v)?.as_str())?;
-            n.borrow_mut().set_value(v.value()?.as_str())?;
+            let n = document_of(&node).create_attribute(qualified_name(&v)?.as_str())?;
+            // `set_value(v.value())` would read the expanded value as markup again (`&amp;amp;lt;`
+            // becomes `<`, `a&amp;b` is refused): copy the pieces of the value instead.
+            for piece in v.child_nodes().iter() {
+                append_child_to_tree(n.clone(), piece)?;
+            }
 
             if let Some(mut attr) = node.attributes() {
                 attr.borrow_mut().set_named_item(n)?;
